@@ -18,6 +18,7 @@ pub mod c16;
 pub mod c17;
 pub mod c18;
 pub mod c19;
+pub mod c20;
 pub mod sessmode;
 
 pub struct Report {
@@ -118,6 +119,7 @@ pub fn run(args: &Args) -> J {
         "c14" => c14::run(args, &mut rep),
         "c18" => c18::run(args, &mut rep),
         "c19" => c19::run(args, &mut rep),
+        "c20" => c20::run(args, &mut rep),
         m => {
             rep.inconclusive.push(format!("unknown mode {}", m));
         }
